@@ -39,6 +39,7 @@ IU = 'internal_utils'
 
 def run(prog, res):
   _masks(prog, res)
+  _project_steps(prog, res)
   _partial_order(prog, res)
   _toposort(prog, res)
   _orientation(prog, res)
@@ -47,13 +48,13 @@ def run(prog, res):
   _norm(prog, res)
   _categorical_project(prog, res)
   _wiring(prog, res)
-  res.floor('P3', 2)
+  res.floor('P3', 3)
   res.floor('O2', 12)
   res.floor('A4', 5)
   res.floor('P4', 4)
   res.floor('D2', 3)
   res.floor('X1', 2)
-  res.floor('W4', 2)
+  res.floor('W4', 3)
   res.floor('W1', 9)
   res.floor('W3', 2)
 
@@ -630,7 +631,22 @@ def _divisor_guard(prog, res):
               {dotted(b.left), dotted(b.right)} == {'upper', 'lower'}:
             sites.append((st, b))
     if not sites:
-      raise AnalysisError('%s: the range width upper - lower vanished' % q)
+      found_elsewhere = any(
+          isinstance(b, ast.BinOp) and isinstance(b.op, ast.Sub) and
+          {dotted(b.left), dotted(b.right)} == {'upper', 'lower'}
+          for q2 in ('linear_lib.project', 'linear_lib.assert_constraints')
+          if q2 != q for b in ast.walk(prog.function(q2).node))
+      if not found_elsewhere:
+        raise AnalysisError('%s: the range width upper - lower vanished' % q)
+      res.violation('D2', '%s|scaling-siblings' % q, fn.loc(),
+                    'linear_lib.project and linear_lib.assert_constraints no '
+                    'longer build the range scaling the same way (one loops '
+                    'over zip(input_min, input_max) and multiplies each '
+                    'dimension once by upper - lower, the other does not): '
+                    'the projection enforces another inequality than the '
+                    'assertion checks, e.g. a dimension in k pairs scaled by '
+                    'range**k')
+      continue
     for i, (st, b) in enumerate(sites):
       gs = structural_guards(fn.node, st) or []
       strict = False
@@ -674,3 +690,63 @@ def _divisor_guard(prog, res):
             'a range dominance pair on a zero-width input range is accepted: '
             'its scaled constraint is 0 * w_dominant >= range * w_weak and the '
             'scaling cannot be undone')
+
+
+def _project_steps(prog, res):
+  """W4 (linear): linear_lib.project applies its steps so that each later step
+  keeps what the earlier ones established: sign clamps, then monotonic
+  dominance, then range dominance, and the normalisation LAST (a positive
+  rescaling of a column keeps signs and both dominance orders, whereas the
+  scale / project / unscale of range dominance does not keep the norm).
+  The two sign clamps are independent: in a layer with increasing AND
+  decreasing inputs both must run."""
+  fn = prog.function('linear_lib.project')
+  res.analysed(fn)
+  top = [st for st in fn.node.body if isinstance(st, ast.If)]
+
+  def kind(st):
+    reads = names_read(st.test)
+    t = norm_text(st.test).replace(' ', '')
+    if 'normalization_order' in reads:
+      return 'norm'
+    if 'range_dominances' in reads:
+      return 'range'
+    if 'monotonic_dominances' in reads:
+      return 'dominance'
+    if t.startswith('any(monotonicities'):
+      return 'clamps'
+    return None
+  seq = [k for k in (kind(st) for st in top) if k]
+  want = ['clamps', 'dominance', 'range', 'norm']
+  res.check(seq == want, 'W4', 'linear_lib.project|step-order', fn.loc(),
+            'steps run as sign clamps -> monotonic dominance -> range '
+            'dominance -> normalisation',
+            'linear_lib.project runs its steps as %s, expected %s: a step that '
+            'does not preserve an earlier guarantee now runs after it (e.g. '
+            'range dominance after the normalisation leaves the columns '
+            'un-normalised)' % (seq, want))
+  # independence of the two clamps
+  clamp_if = [st for st in top if kind(st) == 'clamps']
+  if len(clamp_if) != 1:
+    raise AnalysisError('linear_lib.project: sign clamp block not found')
+  inner = {}
+  for st in ast.walk(clamp_if[0]):
+    if isinstance(st, ast.If) and isinstance(st.test, ast.Compare) and \
+        isinstance(st.test.ops[0], ast.In) and dotted(
+            st.test.comparators[0]) == 'monotonicities':
+      inner[const_value(st.test.left, None)] = st
+  if set(inner) != {1, -1}:
+    raise AnalysisError('linear_lib.project: the two sign clamps were not '
+                        'found (%s)' % sorted(inner, key=str))
+  dependent = []
+  for sign, st in inner.items():
+    for t, pol in structural_guards(clamp_if[0], st) or []:
+      other = inner[-sign]
+      if norm_text(t) == norm_text(other.test) and not pol:
+        dependent.append(sign)
+  res.check(not dependent, 'P3', 'linear_lib.project|clamps-independent',
+            fn.loc(inner[-1]),
+            'the increasing and the decreasing clamp are separate ifs',
+            'the clamp for monotonicity %s only runs when the other direction '
+            'is absent (elif): a layer with increasing and decreasing inputs '
+            'keeps wrong-signed weights on one of them' % dependent)
